@@ -35,10 +35,11 @@ def jobs_C01(tier, scale):
     q = tier == "quick"
     cl = _classes(["DS", "DL"], ["int", "double", "string", "struct", "empty"])
     mixb = dict(mix, fill=12, dedup=4)
+    mixh = dict(mix, fill=12, dedup=10)
     return [hist_job("C01", cl, dict(mix, dedup=2, churn=2), tier, scale, 16000, 400000, "directed histories vs set model"),
             hist_job("C01", cl, mix, tier, scale, 3000, 80000, "histories observed only after every 2nd-5th operation (several mutations between observations)", sparse_pct=100),
             hist_job("C01", _classes(["DS", "DL"], ["int"]), mixb, tier, scale, 500, 12000, "graphs with 33-70 vertices, `fill` gives degrees up to 90", bign_pct=100, max_size=40),
-            hist_job("C01", _classes(["DS", "DL"], ["int"]), mixb, tier, scale, 400, 10000, "graphs with 129-700 vertices (light observation: lists, counts, degrees, edges(), sampled pairs)", huge_pct=100, max_size=30),
+            hist_job("C01", _classes(["DS", "DL"], ["int"]), mixh, tier, scale, 1500, 30000, "graphs with 129-700 vertices (light observation: lists, counts, degrees, edges(), sampled pairs)", huge_pct=100, max_size=30),
             enum_job("hist", "histmask", dict(prop="C01", classes=_classes(["DS", "DL"], ["int"]), dmin=0, dmax=2 if q else 3, orders=2 if q else 3), tier,
                      "every directed edge set on <=%d vertices, built in several insertion orders, then every single mutator once" % (2 if q else 3))]
 
@@ -48,10 +49,11 @@ def jobs_C02(tier, scale):
     q = tier == "quick"
     cl = _classes(["US", "UL"], ["int", "double", "string", "struct", "empty"])
     mixb = dict(mix, fill=12, dedup=4)
+    mixh = dict(mix, fill=12, dedup=10)
     return [hist_job("C02", cl, dict(mix, dedup=2, churn=2), tier, scale, 16000, 400000, "undirected histories vs set model"),
             hist_job("C02", cl, mix, tier, scale, 3000, 80000, "histories observed only after every 2nd-5th operation", sparse_pct=100),
             hist_job("C02", _classes(["US", "UL"], ["int"]), mixb, tier, scale, 500, 12000, "graphs with 33-70 vertices, `fill` gives degrees up to 90", bign_pct=100, max_size=40),
-            hist_job("C02", _classes(["US", "UL"], ["int"]), mixb, tier, scale, 400, 10000, "graphs with 129-700 vertices (light observation)", huge_pct=100, max_size=30),
+            hist_job("C02", _classes(["US", "UL"], ["int"]), mixh, tier, scale, 1500, 30000, "graphs with 129-700 vertices (light observation)", huge_pct=100, max_size=30),
             enum_job("hist", "histmask", dict(prop="C02", classes=_classes(["US", "UL"], ["int"]), umin=0, umax=3 if q else 4, orders=2 if q else 3), tier,
                      "every undirected edge set on <=%d vertices, several insertion orders/orientations, then every single mutator once" % (3 if q else 4))]
 
